@@ -13,6 +13,7 @@ import Oracle.Txn
 import Oracle.Http
 import Oracle.Logger
 import Oracle.Jose
+import Oracle.Errors
 
 namespace Oracle
 
@@ -28,7 +29,8 @@ def handlers : List (String × (String → List String → Option String)) := [
   ("txn.", Oracle.Txn.handle),
   ("http.", Oracle.Http.handle),
   ("logger.", Oracle.Logger.handle),
-  ("jose.", Oracle.Jose.handle)
+  ("jose.", Oracle.Jose.handle),
+  ("err.", Oracle.Errors.handle), ("c08.", Oracle.Errors.handle)
 ]
 
 def dispatch (op : String) (args : List String) : Option String :=
